@@ -589,8 +589,8 @@ pub fn property() -> Property {
         minimise: None,
         subs: vec![
             Sub::Custom(CustomSub { name: "cases", run: fixed_cases, replay: replay_case }),
-            Sub::Bytes(BytesSub { name: "typed", f: typed, max_len: 800, quick: Budget { threads: 8, cases: 4000 }, thorough: Budget { threads: 16, cases: 200_000 }, keep_unreproducible: false }),
-            Sub::Bytes(BytesSub { name: "cross", f: cross, max_len: 800, quick: Budget { threads: 8, cases: 4000 }, thorough: Budget { threads: 16, cases: 200_000 }, keep_unreproducible: false }),
+            Sub::Bytes(BytesSub { name: "typed", f: typed, max_len: 800, quick: Budget { threads: 8, cases: 24000 }, thorough: Budget { threads: 16, cases: 200_000 }, keep_unreproducible: false }),
+            Sub::Bytes(BytesSub { name: "cross", f: cross, max_len: 800, quick: Budget { threads: 8, cases: 24000 }, thorough: Budget { threads: 16, cases: 200_000 }, keep_unreproducible: false }),
         ],
     }
 }
